@@ -58,4 +58,27 @@ PROPS = {
             "determinism is structural in Gallina; the source-level audit (no ambient state outside fast_verify, forbid(unsafe_code)) is recomputed by the translator on every run; thread interleavings are runtime behaviour and are only sampled",
         ],
     },
+    "C02": {
+        "families": [{"name": "c06"}, {"name": "e2e", "args": ["lite"]}],
+        "rfc": True,
+        "assumptions": [
+            "the right-hand side of the iff is Spec/Rfc8554.v, an independent transcription of RFC 8554 sections 4-6 validated against the Appendix F vectors; its verdict is computed in Coq for every triple the implementation judged and must be equal",
+            "rejection of ARBITRARY altered data beyond the structural checks rests on second-preimage resistance of H and is not a theorem; it is exercised by the mutation families",
+            "LMS typecode 1 (4-leaf test height enabled by the verification hook) is added to the RFC's Table 2",
+        ],
+    },
+    "C07": {
+        "families": [{"name": "e2e"}],
+        "rfc": True,
+        "assumptions": [
+            "right-hand side: Spec/Rfc8554.v + Spec/HssSpec.v (independent transcription of RFC 8554, validated by the Appendix F vectors) over Spec/HashSigs.v; the independent-verifier clause is checked by evaluating the RFC transcription's verifier in Coq on every released signature",
+        ],
+    },
+    "C08": {
+        "families": [{"name": "e2e", "args": ["lite"]}, {"name": "hasher"}],
+        "assumptions": [
+            "Spec/HashSigs.v is a transcription of the reference's derivation and cannot be validated against the hash-sigs binary offline (trusted)",
+            "finalize = first n bytes of SHA-256 / of the SHAKE256 XOF stream is a model definition, tied to src/hasher/*.rs by the hasher-unit comparison with the sha2 / sha3 crates; the Gallina SHA-256 is compared with the library's on the same inputs",
+        ],
+    },
 }
